@@ -117,8 +117,9 @@ def rejection_sample_inmem(
     )
 
     if ln_prior is not None and ln_prior is not False:
-        samples["ln_prior"] = ln_prior[good_samples_idx]
-        samples["ln_likelihood"] = lls[good_samples_idx]
+        # one value per returned row: each accepted sample has n_linear_samples rows
+        samples["ln_prior"] = np.repeat(ln_prior[good_samples_idx], n_linear_samples)
+        samples["ln_likelihood"] = np.repeat(lls[good_samples_idx], n_linear_samples)
 
     if return_all_logprobs:
         return samples, lls
@@ -223,8 +224,10 @@ def iterative_rejection_inmem(
 
     # FIXME: copy-pasted from function above
     if ln_prior is not None and ln_prior is not False:
-        samples["ln_prior"] = ln_prior[full_samples_idx]
-        samples["ln_likelihood"] = all_marg_lls[good_samples_idx]
+        samples["ln_prior"] = np.repeat(ln_prior[full_samples_idx], n_linear_samples)
+        samples["ln_likelihood"] = np.repeat(
+            all_marg_lls[good_samples_idx], n_linear_samples
+        )
 
     return samples
 
